@@ -68,16 +68,26 @@ class Lock:
         self.f.close()
 
 
-def sh(cmd, timeout=600, cwd=None, env=None, inp=None, merge_stderr=True):
-    """Run a command; returns (rc, stdout+stderr). rc=124 on timeout."""
+def sh(cmd, timeout=600, cwd=None, env=None, inp=None, merge_stderr=True, mem_kb=None):
+    """Run a command; returns (rc, stdout+stderr). rc=124 on timeout.  mem_kb: address-space limit of the child."""
+    pre = None
+    if mem_kb:
+        import resource
+
+        def pre():
+            resource.setrlimit(resource.RLIMIT_AS, (mem_kb * 1024, mem_kb * 1024))
     try:
         p = subprocess.run(cmd, cwd=cwd, env=env, input=inp, stdout=subprocess.PIPE,
                            stderr=subprocess.STDOUT if merge_stderr else subprocess.DEVNULL, timeout=timeout,
-                           shell=isinstance(cmd, str))
+                           shell=isinstance(cmd, str), preexec_fn=pre)
         return p.returncode, p.stdout.decode("utf-8", "replace")
     except subprocess.TimeoutExpired as ex:
         out = ex.stdout.decode("utf-8", "replace") if ex.stdout else ""
         return 124, out + "\n[timeout after %ss]" % timeout
+
+
+COQ_CASE_FILE_LIMIT = 24 * 1024 * 1024
+COQ_RUN_MEM_KB = 20 * 1024 * 1024
 
 
 def write_if_changed(path, text):
@@ -383,7 +393,11 @@ class Ctx:
         path = os.path.join(self.work, name + ".v")
         with open(path, "w") as f:
             f.write(text)
-        return sh(["coqc", "-R", COQ, "V", "-w", "-notation-overridden", path], cwd=self.work, timeout=timeout)
+        if len(text) > COQ_CASE_FILE_LIMIT:
+            # an observed output far beyond anything the unchanged tree produces (a mutated tree can emit
+            # gigabytes): not evaluated; the caller reports the correspondence as not established
+            return 97, "[case file of %d bytes exceeds the limit of %d: not evaluated]" % (len(text), COQ_CASE_FILE_LIMIT)
+        return sh(["coqc", "-R", COQ, "V", "-w", "-notation-overridden", path], cwd=self.work, timeout=timeout, mem_kb=COQ_RUN_MEM_KB)
 
     # ------------------------------------------------------------------ cases / coverage
     def count_case(self, key, nontrivial=True, kind=None):
